@@ -141,6 +141,23 @@ func (e *Env) scheduleToPeer(c *Conn, data []byte) {
 	e.Sim.At(at, 50, "", func() { h(c, data) })
 }
 
+// latestDeliveryToPeers is the simulated time by which everything the DUT has written so far
+// will have reached the scripted neighbours.
+func (e *Env) latestDeliveryToPeers() time.Duration {
+	e.mu.Lock()
+	conns := append([]*Conn(nil), e.conns...)
+	e.mu.Unlock()
+	var latest time.Duration = -1
+	for _, c := range conns {
+		c.mu.Lock()
+		if c.onData != nil && !c.peerClosed && c.lastDeliver > latest {
+			latest = c.lastDeliver
+		}
+		c.mu.Unlock()
+	}
+	return latest
+}
+
 func (e *Env) scheduleCloseToPeer(c *Conn) {
 	c.mu.Lock()
 	at := e.Sim.Now() + c.minDelay
